@@ -217,3 +217,15 @@ def c02(ctx):
                 "weak order whose incomparability is eq, and that set_basic iterates in the same sorted order for "
                 "8 insertion permutations")
     order_plan(ctx, "C02")
+
+
+@plan("C03")
+def c03(ctx):
+    ctx.rule = ("TLC enumerates 12 binary operations on every ordered pair, 49 unary operations on every element and "
+                "4 n-ary operations on triples of a 66-element operand pool built around the boundary cases of the "
+                "canonicalising constructors (zeros, units, radicals, nested powers, pi shifts, infinities, floats); "
+                "every call is replayed; a failed SYMENGINE_ASSERT (hook H1: raised as an exception) or a result that "
+                "violates the transcribed Add/Mul/Pow/number invariants at any depth is a violation; the same monitor "
+                "runs inside every Trace_Val check (C04, C07, C08, C09, C11)")
+    simple(ctx, "MC_C03", "Trace_Val", floor=0.5)
+    ctx.exhaustive = True
